@@ -576,6 +576,11 @@ func (ag *simAgent) readerLoop(node int) {
 		case "applydrop":
 			r.Answer = "applydrop"
 			_, _ = r.exec()
+		case "delayerr":
+			// the server answers with an error, late
+			r.Answer = "err"
+			rr, e := r, ans.Err
+			vrt.AfterFunc(ans.Delay, func() { rr.complete(nil, e) })
 		case "latedelay":
 			// the server gets to the request only after the delay (executes it then, and answers)
 			r.Answer = "delay"
